@@ -627,3 +627,70 @@ def rule_shared_defaults(ctx, rule, module_prefixes, label):
             [c for c in ctx.repo.all_classes() if c.module.name.startswith(tuple(module_prefixes)) and
              '__init__' in c.methods][0].name),
                'no constructor of %d classes stores a mutable default argument into state it later mutates' % n_cls)
+
+
+def rule_bounded_queue_nowait(ctx, rule, prefixes, label):
+    """put_nowait() on a queue built with a fixed positive maxsize raises QueueFull when the consumer is behind: the
+    element (a stream element, a frame, a credit) is lost or turned into a failure although nothing went wrong.  Every
+    queue attribute of the library that is fed with put_nowait() is therefore unbounded - or bounded by a value the
+    application configures (the lease hold queue), which is that configuration's documented meaning."""
+    rep = ctx.report
+    repo = ctx.repo
+    n_q = 0
+    bad = []
+    for k in repo.all_classes():
+        if not any(k.qualname.startswith(p) for p in prefixes):
+            continue
+        init = k.methods.get('__init__')
+        if init is None:
+            continue
+        params = set(init.params())
+        for st in walk_local(init.node):
+            if not (isinstance(st, (ast.Assign, ast.AnnAssign)) and isinstance(getattr(st, 'value', None), ast.Call)):
+                continue
+            tgt = st.targets[0] if isinstance(st, ast.Assign) else st.target
+            if not (isinstance(tgt, ast.Attribute) and isinstance(tgt.value, ast.Name) and tgt.value.id == 'self'):
+                continue
+            callee = ast.unparse(st.value.func).split('.')[-1]
+            if 'Queue' not in callee:
+                continue
+            n_q += 1
+            size = st.value.args[0] if st.value.args else next(
+                (kw.value for kw in st.value.keywords if kw.arg == 'maxsize'), None)
+            if size is None:
+                continue
+            names = {x.id for x in ast.walk(size) if isinstance(x, ast.Name)}
+            if names & params:
+                continue  # configured by the application
+            val = repo.try_const(init.module, size)
+            if val is None or (isinstance(val, (int, float)) and val <= 0):
+                if val is None:
+                    bad.append((k, tgt.attr, st, 'a bound the analysis cannot evaluate (%s)' % ast.unparse(size), None))
+                continue
+            # bounded by a constant: who puts without waiting?
+            for c2 in [k] + repo.subclasses(k):
+                for m in c2.methods.values():
+                    for c in walk_local(m.node):
+                        if isinstance(c, ast.Call) and isinstance(c.func, ast.Attribute) and \
+                                c.func.attr == 'put_nowait' and isinstance(c.func.value, ast.Attribute) and \
+                                c.func.value.attr == tgt.attr and isinstance(c.func.value.value, ast.Name) and \
+                                c.func.value.value.id == 'self':
+                            bad.append((k, tgt.attr, st, 'maxsize %s' % val, (m, c)))
+    if n_q < 6:
+        raise AnalysisError('%s: only %d queue attributes found in %s' % (rule, n_q, label))
+    seen = set()
+    for k, attr, st, what, site in bad:
+        key = (k.qualname, attr, site[0].qualname if site else '')
+        if key in seen:
+            continue
+        seen.add(key)
+        if site is None:
+            rep.bad(rule, '%s.%s / queue bound' % (k.name, attr), (k.file, st.lineno), what)
+        else:
+            rep.bad(rule, '%s.%s / put_nowait on a bounded queue' % (k.name, attr), (site[0].file, site[1].lineno),
+                    'self.%s is built with %s and %s puts into it without waiting: when the consumer is %s elements '
+                    'behind QueueFull is raised and the element is lost' % (attr, what, site[0].short,
+                                                                            what.split()[-1]))
+    rep.add(rule, '%s / queues fed without waiting are unbounded' % label, None, not bad,
+            '%d queue attributes: none that is fed with put_nowait() has a fixed positive bound' % n_q if not bad else
+            '%d put_nowait() sites on bounded queues' % len(bad))
